@@ -1,3 +1,6 @@
+* HttpEqualsPipe is model-checked on the quick, Limit-0 and Limit-2 alphabets (MC.cfg, MC_l0.cfg, MC_l2.cfg); on the full
+\* alphabet the faithful model contains the known deviation of the code (finding C11 dynx-cast, see MC_full_asis.cfg),
+\* so here only the other properties are checked; the pipe comparison of the full alphabet is made by replay (GenE_full).
 SPECIFICATION Spec
 CONSTANTS
     Mode = "mc"
@@ -14,5 +17,5 @@ CONSTANTS
     Debug = FALSE
     HookMode = "ok"
 VIEW View
-PROPERTIES HttpEqualsPipeKnown OneTurnPerContinuation CapsHold ExtCapHolds CapReplaces HookBalanced
+PROPERTIES OneTurnPerContinuation CapsHold ExtCapHolds CapReplaces HookBalanced
 CHECK_DEADLOCK FALSE
